@@ -13,6 +13,7 @@ import (
 	"strconv"
 	"strings"
 	"sync"
+	"syscall"
 	"time"
 
 	"verif/explore"
@@ -130,6 +131,7 @@ func runC08Worker(cfg c08Config, args []string) error {
 		defer cancel()
 	}
 	cmd := exec.CommandContext(ctx, seedsBinary(), append([]string{"c08worker"}, args...)...)
+	cmd.SysProcAttr = &syscall.SysProcAttr{Pdeathsig: syscall.SIGKILL} // no worker outlives the check
 	cmd.Env = append(os.Environ(), fmt.Sprintf("VERIF_MAPSEED=%d", cfg.Seed), fmt.Sprintf("GOMAXPROCS=%d", cfg.Procs), fmt.Sprintf("GOGC=%d", cfg.GC), fmt.Sprintf("VERIF_C08_ENVS=%d", c08Envs))
 	out, err := cmd.CombinedOutput()
 	if ctx.Err() != nil {
